@@ -105,6 +105,11 @@ func c03Check(ctx *vfCtx, c c03Case) {
 			ctx.Unjudged("content with a key that case-folds to one of the keys the rules read for this event type: refused by Build (and by the untrusted parsers)")
 			return
 		}
+		if tr.Canonical && (p.Depth > 1<<53-1 || p.Depth < -(1<<53-1)) {
+			ctx.Class("depth-outside-the-canonical-integer-range(refused)")
+			ctx.Unjudged("a depth outside +/-(2^53-1) cannot be written in the canonical JSON of this room version: refused by Build")
+			return
+		}
 		ctx.Fail("C03/build-error", "EventBuilder.Build failed for a well-formed proto-event: %v", err)
 		return
 	}
@@ -232,6 +237,58 @@ func c03Check(ctx *vfCtx, c c03Case) {
 	check("headered", ph, eh)
 	if ctx.Failed() {
 		return
+	}
+	// --- siblings: the built event with ONE protected field changed and `hashes` left as it was (what a
+	// relaying server could hand over). Their identity is that of their own redacted form, whatever was
+	// parsed before them in this process (the built event, a moment ago).
+	if tr.Format == 2 {
+		for _, sib := range []struct {
+			name string
+			tree jv
+		}{
+			{"depth", tree.with("depth", jnum(p.Depth%1000+1))},
+			{"origin_server_ts", tree.with("origin_server_ts", jnum(p.TS%100000+1))},
+			{"type", tree.with("type", jstr(p.Type+".sibling"))},
+			{"prev_events", tree.with("prev_events", jv{K: 'a', A: []jv{jstr("$" + strings.Repeat("S", 43))}})},
+		} {
+			if jequal(sib.tree, tree) || (sib.name == "type" && strings.HasPrefix(p.Type, "m.room.")) {
+				continue
+			}
+			wantID := reventID(p.Version, sib.tree)
+			if wantID == orig.EventID {
+				continue
+			}
+			for _, path := range []string{"trusted", "untrusted"} {
+				var sp PDU
+				var serr error
+				if vfCatch(ctx, "C03/sibling/"+path, func() {
+					if path == "trusted" {
+						sp, serr = impl.NewEventFromTrustedJSON([]byte(jplain(sib.tree)), false)
+					} else {
+						sp, serr = impl.NewEventFromUntrustedJSON([]byte(jplain(sib.tree)))
+					}
+				}) {
+					return
+				}
+				if serr != nil || sp == nil {
+					ctx.Class("sibling-refused/" + path)
+					continue
+				}
+				ctx.Class("sibling-parsed/" + path)
+				var sid string
+				if vfCatch(ctx, "C03/sibling/"+path, func() { sid = sp.EventID() }) {
+					return
+				}
+				if sid != wantID {
+					tag := ""
+					if sid == orig.EventID {
+						tag = "/id-of-the-event-parsed-before"
+					}
+					ctx.Fail("C03/sibling-event-id"+tag, "the built event has ID %s; a copy with another %s and the same hashes, parsed %s, reports ID %s, the reference hash of its redacted form is %s", orig.EventID, sib.name, path, sid, wantID)
+					return
+				}
+			}
+		}
 	}
 	// --- the headered form of a parsed event can be taken again (and again): it is the same text each
 	// time, and taking it leaves the event's own JSON alone (an event parsed from a larger buffer — the
@@ -512,6 +569,16 @@ var c03Paths = []string{"age", "prev_content", "prev_content.membership", `m\.re
 func c03Gen(t *rapid.T) c03Case {
 	version := evGenVersion(t)
 	c := c03Case{P: evGenProto(t, version)}
+	if rapid.IntRange(0, 11).Draw(t, "depthBoundary") == 0 {
+		// the largest depth every version can write, and (where the room version's canonical JSON
+		// forbids them) the first ones it cannot: Build must refuse those, not hand out an event
+		// that does not re-parse
+		ds := []int64{1<<53 - 1, 1<<53 - 2}
+		if vtraits[version].Canonical {
+			ds = append(ds, 1<<53, 1<<53+1, 1<<62, 1<<63-1)
+		}
+		c.P.Depth = rapid.SampledFrom(ds).Draw(t, "bigDepth")
+	}
 	o := jgenOpts{MaxDepth: 2, MaxWidth: 3, IntsOnly: true}
 	n := rapid.IntRange(0, 4).Draw(t, "nedits")
 	for i := 0; i < n; i++ {
